@@ -106,6 +106,17 @@ func (c03) Generate(seed uint64, i int, tier string) *Scenario {
 		at := len(loads) + r.Intn(len(prog)-len(loads)+1)
 		prog = append(prog[:at], append([]string{block}, prog[at:]...)...)
 	}
+	if r.Chance(1, 3) {
+		// end in an attribute error on a misspelt field of the program's own
+		// struct: the "did you mean" hint is part of the observable error
+		fs := structFieldSets[r.Intn(len(structFieldSets))]
+		name := fs[r.Intn(3)]
+		typo := name + "s"
+		if len(name) > 2 && r.Bool() {
+			typo = name[:len(name)-1]
+		}
+		prog = append(prog, fmt.Sprintf("def typo_site(v):\n    return v.%s\ntypo_result = typo_site(struct(%s=1, %s=\"two\", %s=[3]))\n", typo, fs[0], fs[1], fs[2]))
+	}
 	sc.Prog = prog
 	// other programs for world (d)
 	no := r.Range(1, 2)
@@ -113,10 +124,16 @@ func (c03) Generate(seed uint64, i int, tier string) *Scenario {
 		og := NewGen(r.Fork(), GenOpts{D: sc.D, Units: r.Range(4, 10), ErrPermille: 10, Probes: true, JSON: true, Time: true, Loads: loads, MutGlobals: true})
 		sc.Readers = append(sc.Readers, og.Program())
 	}
-	sc.Sched = randomSched(r, 2+no)
+	// a twin of P whose structs have other field names: it misspells the same
+	// attributes on differently shaped values (anything cached per type name
+	// or per process would leak from one program into the other)
+	if tw := renameStructFields(sc.Prog, r.Intn(len(structFieldSets))); tw != nil {
+		sc.Readers = append(sc.Readers, tw)
+	}
+	sc.Sched = randomSched(r, 2+len(sc.Readers))
 	sc.N["hashseed"] = int64(r.U64() >> 1)
 	sc.N["fresh"] = 0
-	if r.Chance(1, 12) {
+	if r.Chance(1, 6) {
 		sc.N["fresh"] = 2
 		if tier == "thorough" {
 			sc.N["fresh"] = 8
@@ -394,14 +411,19 @@ func (p c03) Run(sc *Scenario) *Result {
 	}
 	// (b) fresh OS processes with the production seed
 	for k := 0; k < int(sc.Knob("fresh", 0)); k++ {
-		got, err := c03child(sc)
+		got, err := c03child(sc, k%2 == 1)
 		if err != nil {
 			res.Count("fresh_process_failed_to_run", 1)
 			continue
 		}
 		res.Evals++
-		res.Count("world_fresh_process", 1)
-		cmp("fresh-process", got)
+		if k%2 == 1 {
+			res.Count("world_fresh_process_after_other_programs", 1)
+			cmp("fresh-process-after-other-programs", got)
+		} else {
+			res.Count("world_fresh_process", 1)
+			cmp("fresh-process", got)
+		}
 	}
 	return res
 }
@@ -464,8 +486,141 @@ func (p c03) runScheduled(sc *Scenario, src string, base []string, res *Result) 
 	}
 }
 
+// renameStructFields rewrites the keyword names of every struct(...) call.
+func renameStructFields(units []string, set int) []string {
+	names := structFieldSets[set]
+	out := make([]string, len(units))
+	changed := false
+	for ui, u := range units {
+		var sb strings.Builder
+		for i := 0; i < len(u); {
+			j := strings.Index(u[i:], "struct(")
+			if j < 0 {
+				sb.WriteString(u[i:])
+				break
+			}
+			j += i + len("struct(")
+			sb.WriteString(u[i:j])
+			// walk the argument list at depth 0
+			depth, k, argStart, argNo := 0, j, j, 0
+			inStr := byte(0)
+			for ; k < len(u); k++ {
+				ch := u[k]
+				if inStr != 0 {
+					if ch == '\\' {
+						k++
+					} else if ch == inStr {
+						inStr = 0
+					}
+					continue
+				}
+				if ch == '"' || ch == '\'' {
+					inStr = ch
+					continue
+				}
+				if ch == '(' || ch == '[' || ch == '{' {
+					depth++
+				}
+				if ch == ')' || ch == ']' || ch == '}' {
+					if depth == 0 {
+						break
+					}
+					depth--
+				}
+				if (ch == ',' && depth == 0) || k == j {
+					if ch == ',' {
+						argStart = k + 1
+					}
+					seg := u[argStart:]
+					trim := len(seg) - len(strings.TrimLeft(seg, " "))
+					eq := strings.Index(seg, "=")
+					if eq > trim && argNo < 3 && isIdent(seg[trim:eq]) {
+						// emitted below, when copying
+					}
+					argNo++
+				}
+			}
+			// second pass: copy with renamed keywords
+			body := u[j:k]
+			parts := splitTopLevel(body)
+			rename := len(parts) == 3
+			for pi, part := range parts {
+				if !rename {
+					if pi > 0 {
+						sb.WriteString(",")
+					}
+					sb.WriteString(part)
+					continue
+				}
+				t := strings.TrimLeft(part, " ")
+				lead := part[:len(part)-len(t)]
+				if eq := strings.Index(t, "="); eq > 0 && pi < 3 && isIdent(t[:eq]) && (eq+1 >= len(t) || t[eq+1] != '=') {
+					part = lead + names[pi] + t[eq:]
+					changed = true
+				}
+				if pi > 0 {
+					sb.WriteString(",")
+				}
+				sb.WriteString(part)
+			}
+			i = k
+		}
+		out[ui] = sb.String()
+	}
+	if !changed {
+		return nil
+	}
+	return out
+}
+
+func isIdent(s string) bool {
+	if s == "" {
+		return false
+	}
+	for _, c := range s {
+		if !(c == '_' || c >= 'a' && c <= 'z' || c >= 'A' && c <= 'Z' || c >= '0' && c <= '9') {
+			return false
+		}
+	}
+	return true
+}
+
+// splitTopLevel splits an argument list at depth-0 commas.
+func splitTopLevel(s string) []string {
+	var parts []string
+	depth, start := 0, 0
+	inStr := byte(0)
+	for k := 0; k < len(s); k++ {
+		ch := s[k]
+		if inStr != 0 {
+			if ch == '\\' {
+				k++
+			} else if ch == inStr {
+				inStr = 0
+			}
+			continue
+		}
+		switch ch {
+		case '"', '\'':
+			inStr = ch
+		case '(', '[', '{':
+			depth++
+		case ')', ']', '}':
+			depth--
+		case ',':
+			if depth == 0 {
+				parts = append(parts, s[start:k])
+				start = k + 1
+			}
+		}
+	}
+	return append(parts, s[start:])
+}
+
 // c03child runs the program in a fresh OS process (production hash seed).
-func c03child(sc *Scenario) ([]string, error) {
+// With othersFirst the child executes the other programs before P ("after
+// any earlier executions", in a process whose caches P has not yet touched).
+func c03child(sc *Scenario, othersFirst bool) ([]string, error) {
 	self, err := os.Executable()
 	if err != nil {
 		return nil, err
@@ -479,6 +634,9 @@ func c03child(sc *Scenario) ([]string, error) {
 	f.Close()
 	cmd := exec.Command(self, "c03child", f.Name())
 	cmd.Env = append(os.Environ(), "GOMAXPROCS=1")
+	if othersFirst {
+		cmd.Env = append(cmd.Env, "C03_OTHERS_FIRST=1")
+	}
 	out, err := cmd.Output()
 	if err != nil {
 		return nil, err
@@ -499,6 +657,11 @@ func cmdC03Child(args []string) int {
 		return 2
 	}
 	setHashFn(0, 0)
+	if os.Getenv("C03_OTHERS_FIRST") == "1" {
+		for _, o := range sc.Readers {
+			c03{}.runSolo(sc, strings.Join(o, ""))
+		}
+	}
 	got, _ := c03{}.runSolo(sc, sc.Source())
 	b, _ := json.Marshal(got)
 	os.Stdout.Write(b)
